@@ -627,4 +627,63 @@ theorem cia_both_formats_raise_pinned :
     CiaSM.loadsOf (CiaSM.run fs CiaSM.init ops) "H2-H2" = 1 := by
   decide +kernel
 
+/-! ### loaded objects and the global setting drifted apart; loads that name another directory (`CacheConf.stepY`) -/
+
+/-- **whatever happened before** — served objects switched with their own `set_interpolation_mode`, the global key written
+    behind the cache's back, loads naming another directory (any history `pre` of `YOp`s from any state) — once a mode takes one
+    of the cache's routes, INCLUDING the value the global key already holds, every object loaded from a file and served
+    afterwards has that mode -/
+theorem interp_effective_after_drift (fs : List Dir) (s : CSt) (pre : List YOp) (c : XOp) (ki : Option Nat)
+    (hc : c.modeAfter = some ki) (hok : (stepX fs (runY fs s pre) c).2 = .done) (ops : List XOp)
+    (hops : ∀ op ∈ ops, op.modeAfter = none) (m : String) (o : Obj)
+    (h : (stepX fs (runX fs (stepX fs (runY fs s pre) c).1 ops) (.base (.get m))).2 = .served o) (hsrc : o.src ≠ none) :
+    o.mode = ki.getD 0 :=
+  interp_effective_routes fs (runY fs s pre) c ki hc hok ops hops m o h hsrc
+
+/-- non-vacuity: H2O loaded in mode exp (1), the served object switched to linear by its own method (the next request is
+    served the switched object: the drift), then `set_interpolation('exp')` — the value already stored — and the request is
+    served a fresh object in mode exp; the same with the global key written directly -/
+example :
+    let fs : List Dir := [⟨true, [⟨.pickle, 0, "H2O", "H2O"⟩]⟩]
+    traceY fs init [.x (.base (.setPath 0)), .x (.base (.setInterp 1)), .x (.base (.get "H2O")), .objMode "H2O" 0,
+                    .x (.base (.get "H2O")), .x (.base (.setInterp 1)), .x (.base (.get "H2O")), .gcInterp (some 0),
+                    .x (.base (.get "H2O")), .x (.base (.setInterp 0)), .x (.base (.get "H2O"))]
+      = [.done, .done, .served ⟨0, "H2O", 1, none, some 0⟩, .done, .served ⟨0, "H2O", 0, none, some 0⟩, .done,
+         .served ⟨1, "H2O", 1, none, some 0⟩, .done, .served ⟨1, "H2O", 1, none, some 0⟩, .done,
+         .served ⟨2, "H2O", 0, none, some 0⟩] := by
+  decide +kernel
+
+/-- `load_opacity(opacity_path = <another directory>, molecule_filter = [m'])` is the scan a lookup of `m'` makes in the
+    CONFIGURED path, and leaves the configured path as it was: from a cache emptied under the configured path, across such a
+    load and any later gets / adds (no path change), what is served from a file is the fresh load of the first matching file
+    of the configured directory -/
+theorem load_other_served_from_configured (fs : List Dir) (hc : consistent fs) (s : CSt) (c : COp) (hcl : c.clears = true)
+    (p : Nat) (m' : String) (ops : List COp) (hops : ∀ op ∈ ops, ∀ q, op ≠ .setPath q) (m : String) (o : Obj)
+    (h : (step fs (run fs (stepY fs (step fs s c).1 (.loadOther p m')).1 ops) (.get m)).2 = .served o)
+    (hsrc : o.src ≠ none) :
+    (stepY fs (step fs s c).1 (.loadOther p m')).1.path = (step fs s c).1.path ∧
+    ∃ e, firstMatch (curFiles fs (run fs (stepY fs (step fs s c).1 (.loadOther p m')).1 ops)) m = some e ∧
+      o.src = some e.fileId := by
+  constructor
+  · show (step fs (step fs s c).1 (.get m')).1.path = _
+    rcases step_get_state fs (step fs s c).1 m' with h1 | h1 <;> rw [h1]
+    exact (foldl_loadStep_fields m' (curFiles fs _) _).1
+  · have hops' : ∀ op ∈ COp.get m' :: ops, ∀ q, op ≠ .setPath q := by
+      intro op hop q
+      rcases List.mem_cons.mp hop with rfl | hop
+      · intro hh; cases hh
+      · exact hops op hop q
+    have hinv := run_pathInv fs hc (COp.get m' :: ops) _ hops' (pathInv_of_clears fs s c hcl)
+    obtain ⟨e, hfm, hff⟩ := step_get_fromFile fs hc _ hinv m o h hsrc
+    exact ⟨e, hfm, hff.1⟩
+
+/-- non-vacuity: the other directory (1) holds another H2O table; the load that names it takes H2O from the configured
+    directory 0, and the path stays 0 -/
+example :
+    let fs : List Dir := [⟨true, [⟨.pickle, 0, "H2O", "H2O"⟩, ⟨.pickle, 1, "CO2", "CO2"⟩]⟩, ⟨true, [⟨.pickle, 2, "H2O", "H2O"⟩]⟩]
+    traceY fs init [.x (.base (.setPath 0)), .loadOther 1 "H2O", .x (.base (.get "H2O")), .x (.base (.get "CO2"))]
+      = [.done, .done, .served ⟨0, "H2O", 0, none, some 0⟩, .served ⟨1, "CO2", 0, none, some 1⟩] ∧
+    (runY fs init [.x (.base (.setPath 0)), .loadOther 1 "H2O"]).path = some 0 := by
+  decide +kernel
+
 end Taurex.C14
